@@ -72,7 +72,7 @@ func (c16) Classes() []sim.Class {
 func (c16) Describe() sim.Description {
 	return sim.Description{
 		Level: "exploration",
-		Rule: "tape-generated histories of 5-40 WASI file-system calls issued by a guest (shim module on a real engine) against a fresh host directory; " +
+		Rule: "class namespace: names that are string prefixes of each other, every directory of the initial tree opened first and used as base of path calls, renames favoured; tape-generated histories of 5-40 WASI file-system calls issued by a guest (shim module on a real engine) against a fresh host directory; " +
 			"every errno and output buffer is compared with a POSIX-style reference model (inodes, descriptors, offsets, readdir passes), the host tree is compared with the model tree after the history. " +
 			"A run is non-trivial if at least 3 calls succeeded with an effect and at least one of: descriptor reuse after close/renumber, mixed positional/sequential I/O, a multi-call readdir pass, or a fired fault; " +
 			"distinct = distinct sequences of (operation kind, errno) per class and engine",
